@@ -17,3 +17,23 @@ func H_C19_format(n, _ int) {
 	check(vsame(w1.b, w2.b), "C19.format-repeatable")
 	vdigest(w1.b)
 }
+
+// H_C19_format_fault(i, K): calls do not influence one another through state kept
+// between them (a pooled or cached writer, a sticky error): document i is formatted
+// into a healthy writer, into a writer that fails at a solver-chosen call, and into a
+// healthy writer again - as another goroutine's call that happens to follow a failed
+// one would be. The third result must equal the first.
+func H_C19_format_fault(i, K int) {
+	blocks, _ := commonmark.Parse([]byte(c20FaultDocs[i]))
+	w1 := &sliceWriter{}
+	check(Format(w1, blocks) == nil, "C19.format.healthy")
+	vfreeze()
+	f := &faultyWriter{k: vconcrete(nondetInt(1, K))}
+	Format(f, blocks)
+	w3 := &strWriter{}
+	err := Format(w3, blocks)
+	vunfreeze()
+	check(err == nil, "C19.format.after-failed-call.error")
+	check(vsame(w3.b, w1.b), "C19.format.after-failed-call.bytes")
+	vdigest(w1.b)
+}
